@@ -7,10 +7,22 @@
     evaluated value; for every cast site, every resolved tag that passes the site's guard and
     every value form (references nested to any depth) the tag admits, the cast accepts the
     form — except the known triples, keyed by (cast site, offending form), each refuted by a
-    witness. The preservation half (an expression of tag T only evaluates to forms T admits)
-    is carried by the correspondence: template programs for every (site, tag, form) triple and
-    the three program streams of the check. *)
+    witness.
+
+    Proved here on the evaluator model (Model/Eval.v, tied to eval.rs on every run) and the
+    typing discipline (Model/Typing.v: the equations of inference and the kind checks of
+    type_check for variable-free tags, validated against the tags the real inference leaves on
+    every accepted program): type soundness. A program that passes the discipline never
+    reaches any panic of the evaluator other than those of cast_content, cast_object,
+    cast_uri and cast_relation ([C01_typed_programs_panic_only_at_known_casts]): no cast_schema,
+    cast_ranges, cast_string, cast_property, cast_http_status, cast_transfer or cast_lambda
+    panic, no missing binding or declaration, no concat arity / Uri::append panic, for any
+    fuel. Each of the four remaining casts does panic on a well-typed program (K1, K11, K12:
+    witnesses below), and the consistency of @names is needed (K21, found while stating the
+    invariant of this proof). Not proved: termination (fuel), programs whose declarations in
+    use keep a tag variable (K2). *)
 From Oal Require Import Tag Cast CastProofs.
+From Oal Require Eval Typing TypingProofs EvalProofs.
 
 Theorem C01_cast_table_exact_partial : forall s t k,
   resolved t = true -> check s t = true -> admits t k = true ->
@@ -65,3 +77,61 @@ Example C01_hyps_inhabited :
   resolved (TBase BObject) = true /\ check SHeaders (TBase BObject) = true /\
   admits (TBase BObject) (FRef (FRef FObject)) = true /\ known SHeaders (FRef (FRef FObject)) = false.
 Proof. repeat split. Qed.
+
+(** * type soundness of the evaluator *)
+Theorem C01_typed_programs_panic_only_at_known_casts : forall E P rs n,
+  Typing.wt_progb E P rs = true ->
+  match Eval.eval_program false P n rs with
+  | Eval.Panic p => p = Eval.P_content \/ p = Eval.P_object \/ p = Eval.P_uri \/ p = Eval.P_relation
+  | _ => True
+  end.
+Proof. exact TypingProofs.typed_programs. Qed.
+Print Assumptions C01_typed_programs_panic_only_at_known_casts.
+
+Theorem C01_K1_typed_and_panics_refuted :
+  let P : Eval.prog := [[]] in
+  let rs := [Eval.ERel (Eval.ETerm [] (Eval.EUri [inl 30%N] None))
+               [Eval.EXfer [0%N] (Some (Eval.ETerm [] (Eval.ESub (Eval.EOp 3 [Eval.ECont None []; Eval.ECont None []]))))
+                           (Eval.ECont None []) None]] in
+  Typing.wt_progb (TypingProofs.w_E []) P rs = true /\ Eval.eval_program false P 50 rs = Eval.Panic Eval.P_content.
+Proof. exact TypingProofs.K1_typed_and_panics. Qed.
+Print Assumptions C01_K1_typed_and_panics_refuted.
+
+Theorem C01_K11_typed_and_panics_refuted :
+  let P : Eval.prog := [[]] in
+  let rs := [Eval.ERel (Eval.ETerm [] (Eval.EUri [inl 30%N] None))
+               [Eval.EXfer [0%N] None (Eval.ECont None [(1%N, Eval.EOp 0 [Eval.EObj []; Eval.EObj []])]) None]] in
+  Typing.wt_progb (TypingProofs.w_E []) P rs = true /\ Eval.eval_program false P 50 rs = Eval.Panic Eval.P_object.
+Proof. exact TypingProofs.K11_typed_and_panics. Qed.
+Print Assumptions C01_K11_typed_and_panics_refuted.
+
+Theorem C01_K12_typed_and_panics_uri_refuted :
+  let P : Eval.prog := [[]] in
+  let rs := [Eval.ERel (Eval.ETerm [] (Eval.ESub (Eval.EOp 2 [Eval.EUri [inl 30%N] None; Eval.EUri [inl 31%N] None]))) []] in
+  Typing.wt_progb (TypingProofs.w_E []) P rs = true /\ Eval.eval_program false P 50 rs = Eval.Panic Eval.P_uri.
+Proof. exact TypingProofs.K12_typed_and_panics_uri. Qed.
+Print Assumptions C01_K12_typed_and_panics_uri_refuted.
+
+Theorem C01_K12_typed_and_panics_relation_refuted :
+  let P : Eval.prog := [[]] in
+  let rs := [Eval.ESub (Eval.EOp 2 [Eval.EUri [inl 30%N] None; Eval.EUri [inl 31%N] None])] in
+  Typing.wt_progb (TypingProofs.w_E []) P rs = true /\ Eval.eval_program false P 50 rs = Eval.Panic Eval.P_relation.
+Proof. exact TypingProofs.K12_typed_and_panics_relation. Qed.
+Print Assumptions C01_K12_typed_and_panics_relation_refuted.
+
+(** K21: the same @name with two kinds; rejected by the checker, panics in the code *)
+Theorem C01_K21_conflated_reference_refuted :
+  let P : Eval.prog := [[Eval.mk_decl (Some 40%N) false [] [] (Eval.EPrim 2)]; [Eval.mk_decl (Some 40%N) false [] [] (Eval.EObj [])]] in
+  let E := Typing.mk_tenv [[Typing.T BPrimitive]; [Typing.T BObject]] [] in
+  let rs := [Eval.ERel (Eval.ETerm [] (Eval.EUri [inl 30%N] None))
+               [Eval.EXfer [0%N] None (Eval.ECont (Some (Eval.EDecl 0 0)) [(1%N, Eval.EDecl 1 0)]) None]] in
+  Typing.wt_progb E P rs = false /\ Typing.named_okb (Typing.named P E) = false /\
+  Eval.eval_program false P 50 rs = Eval.Panic Eval.P_object.
+Proof. exact TypingProofs.K21_conflated_reference. Qed.
+Print Assumptions C01_K21_conflated_reference_refuted.
+
+Example C01_well_typed_program_evaluates :
+  let E := Typing.mk_tenv [[TFunc [Typing.T BPrimitive] (Typing.T BObject); TFunc [Typing.T BPrimitive] (Typing.T BObject)]] [] in
+  Typing.wt_progb E EvalProofs.ex_P EvalProofs.ex_rs = true /\
+  exists r, Eval.eval_program false EvalProofs.ex_P 50 EvalProofs.ex_rs = Eval.Ok r.
+Proof. exact TypingProofs.ex_well_typed. Qed.
